@@ -40,6 +40,16 @@ def deliver (id : Bytes) : List Frame → Bytes × Bool
       else deliver id fs
     else deliver id fs
 
+/-- Well-formedness of a sender event.  An injected frame has a type byte and a payload `WriteFrame`
+accepts, and it is either a frame of OUR tunnel (same id string) or its 16-byte frame id differs from
+ours.  The last clause is the hypothesis the finding `c10-id-truncation` is about: `TunnelIDFromString`
+keeps 16 bytes, so distinct tunnel id strings can share a frame id. -/
+def evWF (me : Bytes) : Ev → Bool
+  | .inject tid ty d =>
+    decide (ty < 256) && decide (d.length ≤ crossnode.MaxFrameSize) &&
+      (tid == me || tunnelIDFromString tid != tunnelIDFromString me)
+  | _ => true
+
 /-- What every `Write` call must answer: everything accepted while open, refused after close. -/
 def expectedWrites : Bool → List Ev → List WRes
   | _, [] => []
